@@ -1,4 +1,5 @@
-"""U10 -- tail of decode_regular (R-outline, second range): lenient conversions, debug id precedence, root, ignore list"""
+"""U10 -- decode_regular (src/decoder.rs) as a whole: the six bindings that unpack the raw document, the mapping loop nest as a call of the
+outlined function proved in U4 (R-outline-call), and the tail verbatim: lenient conversions, debug id precedence, root, ignore list"""
 import re
 from vx.rs import Fn, LostAnchor
 from .common import emit_struct, emit_error_enum, import_method, guarded, mono
@@ -6,31 +7,48 @@ from .u6_root import prelude_types
 from .u9_dispatch import emit_json_struct
 
 NAME = 'u10_tail'
-PROPS = ['C02', 'C01', 'C05', 'C04']
+PROPS = ['C02', 'C01', 'C05', 'C04', 'C06', 'C07']
 D = 'src/decoder.rs'
 T = 'src/types.rs'
 J = 'src/jsontypes.rs'
 
 MUTANTS = [
-    ('decoder::decode_regular__tail', r'rsm\.debug_id\.or\(rsm\._debug_id_new\)', 'rsm._debug_id_new.or(rsm.debug_id)'),
-    ('decoder::decode_regular__tail', r'"<invalid>"', '"<invalid >"'),
-    ('decoder::decode_regular__tail', r'Value::Number\(num\) => num\.to_string\(\)\.into\(\)', 'Value::Number(num) => "".into()'),
+    ('decoder::decode_regular', r'rsm\.debug_id\.or\(rsm\._debug_id_new\)', 'rsm._debug_id_new.or(rsm.debug_id)'),
+    ('decoder::decode_regular', r'"<invalid>"', '"<invalid >"'),
+    ('decoder::decode_regular', r'verif_string_or_default\(rsm\.range_mappings\)', 'verif_string_or_default(None)'),
+    ('decoder::decode_regular', r'verif_vec_or_default\(rsm\.names\)', 'verif_vec_or_default(None)'),
+    ('decoder::decode_regular', r'Value::Number\(num\) => num\.to_string\(\)\.into\(\)', 'Value::Number(num) => "".into()'),
 ]
 
-SIG = ('pub fn decode_regular__tail(rsm: RawSourceMap, sources: Vec<Option<String>>, names: Vec<Value>, tokens: Vec<RawToken>) -> Result<SourceMap> {\n')
+CALL = 'decode_regular__mappings_loop(&mappings, &range_mappings, &sources, &names, &mut tokens)?;'
 
 
-def outline_tail(u):
-    """R-outline (second range): the statements of decode_regular after its first loop, verbatim, as a function of
-    the variables they use (`rsm` with the fields the first part has not consumed, `sources`, `names`, `tokens`)."""
+def skeleton(u):
+    """R-outline-call: decode_regular with the statements U4 outlines as `decode_regular__mappings_loop` (everything up to and including the
+    first loop except the six bindings `names`, `sources`, `range_mappings`, `mappings`, `allocation_size`, `tokens`, which are that function's
+    parameters) replaced by the call of that function; the six bindings and everything after the loop stay verbatim."""
+    from .u4_decode import DROPPED
     f = u.get_fn(D, 'decode_regular')
     loops = f.loops()
     if not loops:
         raise LostAnchor('decode_regular: no loop')
-    end = loops[0]['body_close'] + 1
-    body = f.text[end:f.body_close]
-    u.count('R-outline')
-    return Fn(SIG + body + '}\n', origin=f.origin, name='decode_regular__tail')
+    first = loops[0]
+    stmts = f.top_level_stmts()
+    out = []
+    seen = set()
+    for a, b in stmts:
+        if a > first['kw_pos']:
+            break
+        text = f.text[a:b]
+        m = re.match(r'let (?:mut )?([a-z_]+)\b', text)
+        if m and m.group(1) in DROPPED:
+            seen.add(m.group(1))
+            out.append('    ' + text.strip() + '\n')
+    if seen != set(DROPPED):
+        raise LostAnchor('decode_regular: expected bindings missing: %s' % sorted(set(DROPPED) - seen))
+    text = f.text[:f.body_open + 1] + '\n' + ''.join(out) + '    ' + CALL + '\n' + f.text[first['body_close'] + 1:]
+    u.count('R-outline-call')
+    return Fn(text, origin=f.origin, name='decode_regular')
 
 
 def build(u):
@@ -50,6 +68,21 @@ def build(u):
     u.spec('order.rs')
     u.spec('tokens.rs')
     u.spec('root.rs')
+    # the reference reading of the format and the outlined loop nest (proved in U4)
+    u.prelude('shim_str_bytes.rs')
+    u.prelude('shim_string_bytes.rs')
+    u.prelude('shim_unpack.rs')
+    u.prelude('shim_int.rs')
+    u.prelude('shim_enumerate.rs')
+    u.prelude('shim_split.rs')
+    u.prelude('bitvec_stub.rs')
+    u.spec('vlq.rs')
+    u.spec('mappings.rs')
+    u.spec('bits.rs')
+    u.spec('mappings_dec.rs')
+    u.spec('decode_regular.rs')
+    from .u4_decode import outline_mapping_loop
+    u.import_fn(outline_mapping_loop(u), 'decoder::decode_regular__mappings_loop', 'u4_decode.ctr', 'u4_decode')
     import_method(u, T, r'SourceMap\b', 'new', 'types::SourceMap::new', 'u2_lookup.ctr', 'u2_lookup')
 
     def sig_string(f):
@@ -60,6 +93,11 @@ def build(u):
         import_method(u, T, r'SourceMap\b', g, 'types::SourceMap::' + g, 'u6_root.ctr', 'u6_root')
 
     def prep(g):
+        n = g.rewrite(r'\brsm\.(names|sources)\.unwrap_or_default\(\)', r'verif_vec_or_default(rsm.\1)', expect=2)
+        n += g.rewrite(r'\brsm\.(range_mappings|mappings)\.unwrap_or_default\(\)', r'verif_string_or_default(rsm.\1)', expect=2)
+        n += g.rewrite(r"\bmappings\.matches\(&\[',', ';'\]\[\.\.\]\)\.count\(\)", 'verif_count_separators(&mappings)', expect=1)
+        u.count('R-shim-call', n)
+        u.count('R-type-annot', g.rewrite(r'let mut tokens = Vec::with_capacity\(allocation_size\);', 'let mut tokens: Vec<RawToken> = Vec::with_capacity(allocation_size);', expect=1))
         u.count('R-mono', g.rewrite(r'\.set_source_root\(', '.set_source_root__string(', expect=1))
         u.count('R-closure', g.annotate_closure('val', 'val: Value',
                 '(o: Arc<str>) ensures arc_chars(&o) == (match val { Value::String(s) => s@, Value::Number(n) => num_text(&n), _ => ""@ })', nth=0))
@@ -69,4 +107,4 @@ def build(u):
                 '(o: Option<Arc<str>>) ensures (match v { Some(c) => (o matches Some(a) && arc_chars(&a) == c@), None => o is None })'))
         u.count('R-closure', g.annotate_closure('x', 'x: Vec<Option<String>>',
                 '(o: Vec<Option<Arc<str>>>) ensures o@.len() == x@.len() && forall|i: int| 0 <= i < x@.len() ==> (match x@[i] { Some(c) => (#[trigger] o@[i] matches Some(a) && arc_chars(&a) == c@), None => o@[i] is None })'))
-    guarded(u, 'decoder::decode_regular__tail', lambda: outline_tail(u), prep, wrap=lambda: None)
+    guarded(u, 'decoder::decode_regular', lambda: skeleton(u), prep, wrap=lambda: None)
